@@ -14,7 +14,11 @@ from ..rules import fwd
 from .. import mir
 
 T_RATIO = 'fpdec::as_integer_ratio::AsIntegerRatio'
-GCD = 'fpdec::as_integer_ratio::gcd_special'
+from .. import roles
+
+
+def GCDID(db):
+    return roles.resolve(db, 'GCD')
 
 
 def summ_gcd(I, st, args, fid):
@@ -41,7 +45,7 @@ def run_job(job):
     lo, hi = {'neg': (-M, -1), 'zero': (0, 0), 'pos': (1, M)}[xcls]
     res = {}
     bad = []
-    I = Interp(db, Opts(summaries={GCD: summ_gcd}))
+    I = Interp(db, Opts(summaries={GCDID(db): summ_gcd}))
     x_poly = None
     for meth in ('as_integer_ratio', 'numerator', 'denominator'):
         fn = db.find_impl_fn(T_RATIO, ['Decimal'], meth)
@@ -198,7 +202,7 @@ class GcdHook:
 
 def job_gcd(db, job):
     _, e, xcls = job
-    fn = db.fns.get(GCD)
+    fn = db.fns.get(GCDID(db))
     if fn is None:
         return [('G-GCD-LOOP', 'e=%d;x=%s' % (e, xcls), False, 'gcd_special not found', None)]
     names = {n: l for l, n in fn.get('names', [])}
@@ -218,7 +222,7 @@ def job_gcd(db, job):
     opts.unroll_loops = False
     opts.loop_delay = 1
     opts.loop_candidates = False
-    opts.loop_hooks = {GCD: GcdHook(ul, vl)}
+    opts.loop_hooks = {GCDID(db): GcdHook(ul, vl)}
     I = Interp(db, opts)
     st = I.new_state()
     lo, hi = {'neg': (-M, -1), 'pos': (1, M)}[xcls]
@@ -318,7 +322,7 @@ def run(rep, tier):
     for f in db.fns.values():
         for bi, t, blk in mir.iter_calls(f):
             fid, path, _ = mir.callee(t)
-            if fid == GCD:
+            if fid == GCDID(db):
                 callers.add(f['id'])
     want = set(x['id'] for x in [db.find_impl_fn(T_RATIO, ['Decimal'], m) for m in ('as_integer_ratio', 'numerator', 'denominator')] if x)
     import re as _re
